@@ -78,6 +78,14 @@ func (v DenseReal32Vector) Clone() DenseReal32Vector {
   }
   return result
 }
+// Create a deep copy of the vector with room for n elements.
+func (v DenseReal32Vector) cloneWithCapacity(n int) DenseReal32Vector {
+  result := make(DenseReal32Vector, len(v), n)
+  for i, _ := range v {
+    result[i] = v[i].Clone()
+  }
+  return result
+}
 /* native vector methods
  * -------------------------------------------------------------------------- */
 func (v DenseReal32Vector) AT(i int) *Real32 {
@@ -99,10 +107,12 @@ func (v DenseReal32Vector) SLICE(i, j int) DenseReal32Vector {
   return v[i:j]
 }
 func (v DenseReal32Vector) APPEND(w DenseReal32Vector) DenseReal32Vector {
-  // v might be a slice of a longer vector, do not
-  // overwrite the elements behind it
-  v = v[:len(v):len(v)]
-  return append(v, w...)
+  // the result must not share any scalars with v or w
+  r := v.cloneWithCapacity(len(v)+len(w))
+  for i := 0; i < len(w); i++ {
+    r = append(r, w[i].Clone())
+  }
+  return r
 }
 func (v DenseReal32Vector) ToDenseReal32Matrix(n, m int) *DenseReal32Matrix {
   if n < 0 || m < 0 || n*m != len(v) {
@@ -159,31 +169,32 @@ func (v DenseReal32Vector) Swap(i, j int) {
   v[i], v[j] = v[j], v[i]
 }
 func (v DenseReal32Vector) AppendScalar(scalars ...Scalar) Vector {
-  // v might be a slice of a longer vector, do not
-  // overwrite the elements behind it
-  v = v[:len(v):len(v)]
+  // the result must not share any scalars with v or the arguments
+  r := v.cloneWithCapacity(len(v)+len(scalars))
   for _, scalar := range scalars {
     switch s := scalar.(type) {
     case *Real32:
-      v = append(v, s)
+      r = append(r, s.Clone())
     default:
-      v = append(v, s.ConvertScalar(Real32Type).(*Real32))
+      // converting to a different type allocates a new scalar
+      r = append(r, s.ConvertScalar(Real32Type).(*Real32))
     }
   }
-  return v
+  return r
 }
 func (v DenseReal32Vector) AppendVector(w_ Vector) Vector {
-  // v might be a slice of a longer vector, do not
-  // overwrite the elements behind it
-  v = v[:len(v):len(v)]
   switch w := w_.(type) {
   case DenseReal32Vector:
-    return append(v, w...)
+    return v.APPEND(w)
   default:
+    // the result must not share any scalars with v or w
+    r := v.cloneWithCapacity(len(v)+w.Dim())
     for i := 0; i < w.Dim(); i++ {
-      v = append(v, w.At(i).ConvertScalar(Real32Type).(*Real32))
+      s := NullReal32()
+      s.Set(w.ConstAt(i))
+      r = append(r, s)
     }
-    return v
+    return r
   }
 }
 func (v DenseReal32Vector) AsMatrix(n, m int) Matrix {
@@ -252,31 +263,32 @@ func (v DenseReal32Vector) ResetDerivatives() {
   }
 }
 func (v DenseReal32Vector) AppendMagicScalar(scalars ...MagicScalar) MagicVector {
-  // v might be a slice of a longer vector, do not
-  // overwrite the elements behind it
-  v = v[:len(v):len(v)]
+  // the result must not share any scalars with v or the arguments
+  r := v.cloneWithCapacity(len(v)+len(scalars))
   for _, scalar := range scalars {
     switch s := scalar.(type) {
     case *Real32:
-      v = append(v, s)
+      r = append(r, s.Clone())
     default:
-      v = append(v, s.ConvertMagicScalar(Real32Type).(*Real32))
+      // converting to a different type allocates a new scalar
+      r = append(r, s.ConvertMagicScalar(Real32Type).(*Real32))
     }
   }
-  return v
+  return r
 }
 func (v DenseReal32Vector) AppendMagicVector(w_ MagicVector) MagicVector {
-  // v might be a slice of a longer vector, do not
-  // overwrite the elements behind it
-  v = v[:len(v):len(v)]
   switch w := w_.(type) {
   case DenseReal32Vector:
-    return append(v, w...)
+    return v.APPEND(w)
   default:
+    // the result must not share any scalars with v or w
+    r := v.cloneWithCapacity(len(v)+w.Dim())
     for i := 0; i < w.Dim(); i++ {
-      v = append(v, w.MagicAt(i).ConvertMagicScalar(Real32Type).(*Real32))
+      s := NullReal32()
+      s.Set(w.ConstAt(i))
+      r = append(r, s)
     }
-    return v
+    return r
   }
 }
 func (v DenseReal32Vector) AsMagicMatrix(n, m int) MagicMatrix {
